@@ -95,7 +95,7 @@ func genC14(r *rand.Rand, run int, tier string) *Scenario {
 	}
 
 	if run%3 == 2 {
-		tr.HTTPFault = pick(r, "roundtrip_err", "status_5xx", "truncate_body", "body_read_err", "rewrite_types_hash")
+		tr.HTTPFault = pick(r, "roundtrip_err", "status_5xx", "truncate_body", "body_read_err", "rewrite_types_hash", "slow_body")
 
 		if len(tr.Importer) > 0 && chance(r, 0.6) {
 			tr.FaultCache = tr.Importer[r.IntN(len(tr.Importer))].Name
@@ -164,6 +164,17 @@ func (t *simTransport) RoundTrip(req *http.Request) (*http.Response, error) {
 
 			t.e.out.fault(fault)
 		}
+	case "slow_body":
+		// a slow link: every read of the response body takes 4 simulated seconds and delivers at most a quarter
+		// of it. Nothing is lost; like a real transport the body stops with the request context's error once that
+		// context is cancelled (the library sets no deadline of its own).
+		if resp.StatusCode == http.StatusOK {
+			resp.Body = io.NopCloser(&slowReader{ctx: req.Context(), b: body, chunk: len(body)/4 + 1})
+
+			t.e.out.fault(fault)
+
+			return resp, nil
+		}
 	case "body_read_err":
 		if resp.StatusCode == http.StatusOK {
 			fired := false
@@ -178,6 +189,42 @@ func (t *simTransport) RoundTrip(req *http.Request) (*http.Response, error) {
 	resp.Body = io.NopCloser(bytes.NewReader(body))
 
 	return resp, nil
+}
+
+type slowReader struct {
+	ctx   context.Context
+	b     []byte
+	chunk int
+}
+
+func (r *slowReader) Read(p []byte) (int, error) {
+	if err := r.ctx.Err(); err != nil {
+		return 0, err
+	}
+
+	if len(r.b) == 0 {
+		return 0, io.EOF
+	}
+
+	time.Sleep(4 * time.Second) // bubble clock
+
+	if err := r.ctx.Err(); err != nil {
+		return 0, err
+	}
+
+	n := len(p)
+	if n > r.chunk {
+		n = r.chunk
+	}
+
+	if n > len(r.b) {
+		n = len(r.b)
+	}
+
+	copy(p, r.b[:n])
+	r.b = r.b[n:]
+
+	return n, nil
 }
 
 // yieldingRW is the http.ResponseWriter handed to the Export handler in concurrent runs: every
@@ -359,7 +406,8 @@ func runHTTP(e *env) {
 		name := c.Name
 		got := impStores[name].entries()
 		_, known := expStores[name]
-		faultHere := tr.HTTPFault != "" && (tr.FaultCache == "" || tr.FaultCache == name)
+		// (a slow body is not a fault of the data: everything must arrive)
+		faultHere := tr.HTTPFault != "" && tr.HTTPFault != "slow_body" && (tr.FaultCache == "" || tr.FaultCache == name)
 		class := fmt.Sprintf("%s<-%s", c.Backend, backendOf(tr.Exporter, name))
 		total += len(expBefore[name])
 
